@@ -251,6 +251,40 @@ def check_alloc(case):
                        ["ends-only" if case["ends_only"] else "free-layout"]}
 
 
+@st.composite
+def strat_sequence(draw, tier):
+    """Several allocations made one after another in one process; nothing of
+    an earlier call (alignments, reservations) may apply to a later one."""
+    n = draw(st.integers(2, 4))
+    cases = []
+    for i in range(n):
+        last = i == n - 1
+        if last or draw(st.integers(0, 2)) == 0:
+            cases.append(draw(strat_alloc(tier, ends_only=True)))
+        else:
+            cases.append(draw(strat_alloc(tier)))
+    return {"calls": cases}
+
+
+def check_sequence(case):
+    nt = False
+    classes = set()
+    for i, call in enumerate(case["calls"]):
+        try:
+            out = check_alloc(call)
+        except Violation as v:
+            raise Violation("call %d of %d in one process: %s"
+                            % (i + 1, len(case["calls"]), v.message),
+                            v.details)
+        classes.update(out.get("classes", []))
+        if i and out.get("nontrivial"):
+            nt = True
+    aligned_first = any(c["align"] for c in case["calls"][:-1])
+    return {"nontrivial": nt and aligned_first,
+            "classes": sorted(classes) +
+            (["after-aligned-call"] if aligned_first else [])}
+
+
 CLAUSES = [
     Clause("sound", check_alloc, strategy=strat_free,
            rule="feasible placements x free reservation layouts (adjacent, "
@@ -264,4 +298,11 @@ CLAUSES = [
                 "prefix/suffix of each chip's range: allocation must succeed",
            examples={"quick": 1500, "thorough": 20000},
            shards={"quick": 8, "thorough": 16}),
+    Clause("sequence", check_sequence, strategy=strat_sequence,
+           rule="2-4 allocate calls in one process (free layouts with "
+                "alignments, then an ends-only call that must succeed), each "
+                "judged on its own; non-trivial = a call with an alignment "
+                "precedes a non-trivial call",
+           examples={"quick": 400, "thorough": 6000},
+           shards={"quick": 8, "thorough": 16}, isolate=True),
 ]
